@@ -68,10 +68,10 @@ def main():
             'add_only': True,
         },
         'engines': [{'name': 'simkit', 'path': 'simkit/', 'serves_properties': built,
-                     'kind_free_text': 'own deterministic simulator: sha256-derived seed streams, simulated user script / root finder / disk, reference models, ddmin, JSON op-list replay'}],
+                     'kind_free_text': 'own deterministic simulator: sha256-derived seed streams, simulated user script / root finder / disk, reference models, ddmin, JSON op-list replay (single-run and multi-run), chunk-level process isolation'}],
         'checks': checks,
         'not_applicable': na,
-        'notes': 'Exit codes: 0 held (possibly with KNOWN-FINDING lines), 1 VIOLATION, 2 HARNESS-ERROR, 3 wall-clock kill. VERIF_SEED, VERIF_TIER, VERIF_RUNS, VERIF_WALL, VERIF_WORKERS, VERIF_REPO honoured. See DESIGN.md.',
+        'notes': 'Exit codes: 0 held (possibly with KNOWN-FINDING lines), 1 VIOLATION, 2 HARNESS-ERROR, 3 wall-clock kill. VERIF_SEED, VERIF_TIER, VERIF_RUNS, VERIF_WALL, VERIF_WORKERS, VERIF_REPO (scratch tree for seeded changes), VERIF_EVIDENCE_DIR (scratch evidence) honoured. KNOWN-FINDING lines: known_findings.json status=open (currently K1, C03). ./check selftest determinism|sensitivity; tools/run_seeded.sh; tools/soak.sh; tools/mutate.py. See DESIGN.md.',
     }
     with open(os.path.join(HERE, 'MANIFEST.json'), 'w') as f:
         json.dump(m, f, indent=1)
